@@ -7,6 +7,7 @@ import (
 	"strconv"
 	"strings"
 	"sync"
+	"sync/atomic"
 	"time"
 
 	"go.brendoncarroll.net/p2p"
@@ -256,6 +257,33 @@ func (st *hubState) apply(op []string, o *hx.Out) {
 			default:
 				return s + " " + st.qObs()
 			}
+		case "q-late-deliver":
+			src, n := atoi(op[1]), atoi(op[2])
+			payload := make([]byte, n)
+			var ok bool
+			if op[3] == "1" {
+				ok = st.q.DeliverVec(memswarm.Addr{N: src}, memswarm.Addr{}, p2p.IOVec{payload})
+			} else {
+				ok = st.q.Deliver(p2p.Message[memswarm.Addr]{Src: memswarm.Addr{N: src}, Payload: payload})
+			}
+			return fmt.Sprintf("%v len=%d", ok, st.q.Len())
+		case "q-late-recv":
+			res := make(chan string, 1)
+			go func() {
+				got := ""
+				err := st.q.Receive(context.Background(), func(m p2p.Message[memswarm.Addr]) { got = fmt.Sprintf("got=%d:%d", m.Src.N, len(m.Payload)) })
+				if err == nil {
+					res <- "nil " + got
+				} else {
+					res <- errStr(err)
+				}
+			}()
+			select {
+			case x := <-res:
+				return fmt.Sprintf("%s len=%d", x, st.q.Len())
+			case <-time.After(500 * time.Millisecond):
+				return "blocks"
+			}
 		case "q-cancel":
 			p := st.qparts[atoi(op[1])]
 			p.cancel()
@@ -407,6 +435,16 @@ func queueScenario(r *rand.Rand, exec func(op string) string) {
 			closed = true
 		}
 	}
+	if closed { // the queue stays closed: nothing is accepted and nothing is handed out
+		for k := r.Intn(6); k > 0; k-- {
+			if r.Intn(2) == 0 {
+				exec(fmt.Sprintf("q-late-deliver %d %d %d", 1+r.Intn(200), hx.Pick(r, 0, 1, mtu), r.Intn(2)))
+			} else {
+				exec(fmt.Sprintf("q-late-recv %d", nextR))
+				nextR++
+			}
+		}
+	}
 	for _, i := range inCb {
 		exec(fmt.Sprintf("q-release %d", i))
 	}
@@ -433,6 +471,12 @@ func hubStream(r *rand.Rand, n int, tier string, o *hx.Out) {
 func hubOracle(r *rand.Rand, n int, tier string, infile string) (cases int, fails []string) {
 	for cases < n {
 		cases++
+		if cases%4 == 0 {
+			if f := queueOracleCase(r); f != "" && len(fails) < 20 {
+				fails = append(fails, f)
+			}
+			continue
+		}
 		kind := hx.Pick(r, "tell", "ask")
 		np, nrecv := 1+r.Intn(5), 1+r.Intn(5)
 		tell := swarmutil.NewTellHub[memswarm.Addr]()
@@ -557,4 +601,108 @@ func hubOracle(r *rand.Rand, n int, tier string, infile string) (cases int, fail
 		mu.Unlock()
 	}
 	return cases, fails
+}
+
+// queueOracleCase: C12 on swarmutil.Queue under genuine concurrency. Producers and receivers race with a Close;
+// once Close has returned no callback may start, late Delivers must not resurrect the queue, and every Receive
+// made afterwards must return an error without running its callback.
+func queueOracleCase(r *rand.Rand) string {
+	capN := 1 + r.Intn(6)
+	q := swarmutil.NewQueue[memswarm.Addr](capN, 16)
+	var mu sync.Mutex
+	var violations []string
+	bad := func(f string, a ...any) {
+		mu.Lock()
+		violations = append(violations, fmt.Sprintf(f, a...))
+		mu.Unlock()
+	}
+	var closeReturned atomic.Bool
+	var wg sync.WaitGroup
+	nrecv, np := r.Intn(4), 1+r.Intn(4)
+	for i := 0; i < nrecv; i++ {
+		wg.Add(1)
+		go func() {
+			defer wg.Done()
+			for k := 0; k < 40; k++ {
+				saw := false
+				err := q.Receive(context.Background(), func(m p2p.Message[memswarm.Addr]) {
+					saw = true
+					if closeReturned.Load() {
+						bad("queue callback started after Close had returned")
+					}
+					time.Sleep(time.Duration(m.Src.N%3) * 20 * time.Microsecond)
+				})
+				if err == nil && !saw {
+					bad("queue Receive returned nil without a callback")
+				}
+				if err != nil {
+					return
+				}
+			}
+		}()
+	}
+	for j := 0; j < np; j++ {
+		j := j
+		wg.Add(1)
+		go func() {
+			defer wg.Done()
+			for k := 0; k < 10; k++ {
+				q.Deliver(p2p.Message[memswarm.Addr]{Src: memswarm.Addr{N: j*100 + k}, Payload: []byte{byte(k)}})
+				if k%3 == 2 {
+					time.Sleep(50 * time.Microsecond)
+				}
+			}
+		}()
+	}
+	time.Sleep(time.Duration(r.Intn(800)) * time.Microsecond)
+	cd := make(chan struct{})
+	go func() { q.Close(); close(cd) }()
+	select {
+	case <-cd:
+		closeReturned.Store(true)
+	case <-time.After(2 * time.Second):
+		return fmt.Sprintf("C12 queue Close did not return within 2s (cap=%d receivers=%d producers=%d)", capN, nrecv, np)
+	}
+	fin := make(chan struct{})
+	go func() { wg.Wait(); close(fin) }()
+	select {
+	case <-fin:
+	case <-time.After(2 * time.Second):
+		bad("queue: calls still blocked 2s after Close")
+	}
+	// afterwards
+	late := 1 + r.Intn(2*capN+2)
+	accepted := 0
+	for k := 0; k < late; k++ {
+		if q.Deliver(p2p.Message[memswarm.Addr]{Src: memswarm.Addr{N: 9000 + k}, Payload: []byte{1}}) {
+			accepted++
+		}
+	}
+	for k := 0; k < 6; k++ {
+		ran := false
+		done := make(chan error, 1)
+		go func() {
+			done <- q.Receive(context.Background(), func(m p2p.Message[memswarm.Addr]) { ran = true })
+		}()
+		select {
+		case err := <-done:
+			if ran {
+				bad("a message (of %d delivered late, %d accepted) reached a Receive callback after Close had returned", late, accepted)
+			}
+			if err == nil {
+				bad("queue Receive after Close returned nil (%d late Delivers, %d accepted)", late, accepted)
+			}
+		case <-time.After(time.Second):
+			bad("queue Receive after Close blocks")
+		}
+	}
+	if q.Close() != nil {
+		bad("second Close returns an error")
+	}
+	mu.Lock()
+	defer mu.Unlock()
+	if len(violations) > 0 {
+		return "C12 " + violations[0] + fmt.Sprintf(" (cap=%d receivers=%d producers=%d)", capN, nrecv, np)
+	}
+	return ""
 }
